@@ -22,4 +22,5 @@ run D11b -R 88c3ed4 C08 --only 'mir_rle16|unknown_a1'
 run D11c -R 798d79a C08 --only 'mega_dithered'
 run D18 -R d204dbc C04 --only 'extended_info'
 run D14 -R 80c50c6 C18 --only 'version_table'
-run D17b -R a034722 C20 --only 'receive_loop'
+run D17b /verif/tools/reverts/D17b.diff C20 --only 'receive_loop'   # a034722 re-introduced by hand (the later fix 179e919 rewrote the same lines)
+run D17 -R 179e919 C20 --only 'receive_loop'
